@@ -186,12 +186,28 @@ def drop_label(g, rng):
     return h
 
 
+def from_dicts_variant(g, rng):
+    """an isotopologue / radical variant built the way a user derives one molecule from another: copy the atom dictionaries
+    (including whatever derived entries they carry), change a label, hand them to graph_from_molecule"""
+    from tucan.graph_utils import graph_from_molecule
+    atoms = {a: copy.deepcopy(dict(d)) for a, d in g.nodes(data=True)}
+    for d in atoms.values():
+        d.pop(record.TAG, None)
+    a = rng.choice(list(atoms))
+    if rng.random() < 0.5:
+        atoms[a]["mass"] = atoms[a].get("mass", 0) + rng.choice([1, 2, 13])
+    else:
+        atoms[a]["rad"] = rng.choice([1, 2, 3]) if not atoms[a].get("rad") else atoms[a]["rad"] % 3 + 1
+    bonds = {(x, y): {k: v for k, v in d.items() if k != record.ETAG} for x, y, d in g.edges(data=True)}
+    return graph_from_molecule(atoms, bonds)
+
+
 def nearmiss_sessions(rng, tier):
     ss = []
     pool = drivers.molecule_pool(rng, tier, n_random=80 if tier == "quick" else 600, nmax=9, corpus_n=10 if tier == "quick" else 120)
     pool += drivers.special_molecules()
     for name, g in pool:
-        variants = [v for v in (two_switch(g, rng), move_label(g, rng), drop_label(g, rng)) if v is not None]
+        variants = [v for v in (two_switch(g, rng), move_label(g, rng), drop_label(g, rng), from_dicts_variant(g, rng)) if v is not None]
         if not variants:
             continue
         S = Session("near-" + name)
@@ -349,6 +365,15 @@ def c04(out, tier, rng):
     ss = enumerated_sessions(out, tier, rng, parse_back=False)
     ss += pool_sessions(rng, tier, k=3, feedback=True, parse_back=False, nonidentity=True)
     ss += stale_partition_sessions(rng, tier)
+    # refinement that needs more than a hundred rounds: long unsymmetrical chains
+    for nheavy in ((270,) if tier == "quick" else (270, 520, 900)):
+        g = gen.mol([("C", 0, 0, 0)] * nheavy + [("Cl", 0, 0, 0)], [(i, i + 1, 1) for i in range(nheavy)])
+        S = Session(f"longchain{nheavy}")
+        o = S.input(g)
+        objs = [o] + [S.derive(o, relabel(S.objs[o], p, rng), p) for p in [gen.random_perm(rng, nheavy + 1) for _ in range(2)]]
+        for x in objs:
+            S.canon(x, spy=False)
+        ss.append(S)
     count_sessions(out, ss, "c04")
     validate_sessions(out, ss, "C04:")
     out.extra["rule"] = RULE
@@ -377,6 +402,12 @@ def formula_stress(rng, tier, n=60):
     out.append(("all118", gen.mol([(s, 0, 0, 0) for s in gen.SYMBOLS], [(i, i + 1, 1) for i in range(0, 117, 3)])))
     for s in rng.sample(gen.SYMBOLS, 12 if tier == "quick" else 118):
         out.append((f"atom-{s}", gen.mol([(s, 0, 0, 0)], [])))
+    # more than a thousand atoms: four-digit indices
+    k = 1040
+    out.append(("ring1040", gen.mol([("C", 0, 0, 0)] * k, [(i, (i + 1) % k, 1) for i in range(k)])))
+    if tier == "thorough":
+        w = 340
+        out.append(("water340", gen.mol([("H", 0, 0, 0)] * (2 * w) + [("O", 0, 0, 0)] * w, [(2 * i, 2 * w + i, 1) for i in range(w)] + [(2 * i + 1, 2 * w + i, 1) for i in range(w)])))
     return out
 
 
@@ -495,12 +526,53 @@ def automorphism_sessions(rng, tier):
     return ss
 
 
+def prepartitioned_sessions(rng, tier):
+    """graphs that already carry partition values from the library's own partitioning step (by element only) are canonicalized:
+    the classes must still separate isotopes and radicals"""
+    import tucan.canonicalization as tc
+    ss = []
+    part = getattr(tc, "partition_molecule_by_attribute", None)
+    if part is None:
+        return ss
+    pool = [(n, g) for n, g in drivers.special_molecules() if any("mass" in d or "rad" in d for _, d in g.nodes(data=True))]
+    pool += [(f"pp{i}", gen.random_molecule(rng, 7, pool="two", label_p=0.5)) for i in range(12 if tier == "quick" else 120)]
+    for name, g in pool:
+        try:
+            h = part(g, "atomic_number")
+        except Exception:
+            continue
+        S = Session("prepart-" + name)
+        o = S.input(g)
+        p = list(range(g.number_of_nodes()))
+        d = S.derive(o, tag_like(S.objs[o], h), p)
+        for x in (o, d):
+            r = S.canon(x)
+            if r:
+                S.ser(r)
+        ss.append(S)
+    return ss
+
+
+def tag_like(src, h):
+    """h = src with other partition values: carry src's tags over so that the derivation verifies"""
+    h = copy.deepcopy(h)
+    for a in h.nodes:
+        if record.TAG in src.nodes[a]:
+            h.nodes[a][record.TAG] = src.nodes[a][record.TAG]
+    for a, b in h.edges:
+        if record.ETAG in src.edges[a, b]:
+            h.edges[a, b][record.ETAG] = src.edges[a, b][record.ETAG]
+    return h
+
+
 @check("C13")
 def c13(out, tier, rng):
     design_pipeline(out, tier)
     ss = enumerated_sessions(out, tier, rng, parse_back=False)
     ss += pool_sessions(rng, tier, k=3, feedback=True, parse_back=False)
     ss += automorphism_sessions(rng, tier)
+    ss += stale_partition_sessions(rng, tier, n=15)
+    ss += prepartitioned_sessions(rng, tier)
     count_sessions(out, ss, "c13")
     validate_sessions(out, ss, "C13:", rl=30 if tier == "quick" else 60)
     out.extra["rule"] = RULE + "; refinement mode additionally compares every intermediate partition with spec/Refine.tla up to RLimit atoms"
